@@ -1,6 +1,170 @@
-//! C20 — estimators on identical data across the three backends (filled in below).
+//! C20 — deterministic estimators fitted on identical data on all three backends.
+use super::c20::{NaB, NdB};
 use crate::engine::*;
+use crate::gen::*;
+use crate::matops::*;
+use crate::oracle::Mat;
+use proptest::collection::vec;
+use proptest::prelude::*;
+use serde::{Deserialize, Serialize};
+use smartcore::algorithm::neighbour::KNNAlgorithmName;
+use smartcore::decomposition::pca::{PCAParameters, PCA};
+use smartcore::ensemble::random_forest_classifier::{RandomForestClassifier, RandomForestClassifierParameters};
+use smartcore::ensemble::random_forest_regressor::{RandomForestRegressor, RandomForestRegressorParameters};
+use smartcore::linalg::{BaseMatrix, BaseVector};
+use smartcore::linear::elastic_net::{ElasticNet, ElasticNetParameters};
+use smartcore::linear::lasso::{Lasso, LassoParameters};
+use smartcore::linear::linear_regression::LinearRegression;
+use smartcore::linear::logistic_regression::{LogisticRegression, LogisticRegressionParameters};
+use smartcore::linear::ridge_regression::{RidgeRegression, RidgeRegressionParameters};
+use smartcore::metrics;
+use smartcore::naive_bayes::bernoulli::{BernoulliNB, BernoulliNBParameters};
+use smartcore::naive_bayes::categorical::{CategoricalNB, CategoricalNBParameters};
+use smartcore::naive_bayes::gaussian::{GaussianNB, GaussianNBParameters};
+use smartcore::naive_bayes::multinomial::{MultinomialNB, MultinomialNBParameters};
+use smartcore::neighbors::knn_classifier::{KNNClassifier, KNNClassifierParameters};
+use smartcore::neighbors::knn_regressor::{KNNRegressor, KNNRegressorParameters};
+use smartcore::preprocessing::categorical::{OneHotEncoder, OneHotEncoderParams};
+use smartcore::svm::svr::{SVRParameters, SVR};
+use smartcore::svm::Kernels;
+use smartcore::tree::decision_tree_classifier::{DecisionTreeClassifier, DecisionTreeClassifierParameters};
+use smartcore::tree::decision_tree_regressor::{DecisionTreeRegressor, DecisionTreeRegressorParameters};
+
+#[derive(Clone, Debug, Serialize, Deserialize)]
+pub struct EstCase {
+    pub x: Mat,
+    pub xc: Mat, // small non-negative integer codes (counts / categories)
+    pub y_reg: Vec<f64>,
+    pub y_cls: Vec<f64>,
+    pub q: Mat,
+    pub seed: u64,
+    pub param: f64,
+}
+
+fn strat_est(t: Tier) -> BoxedStrategy<EstCase> {
+    (12usize..=t.pick(30, 50), 2usize..=4)
+        .prop_flat_map(|(n, p)| (unit_mat(n, p), vec(vec(0u8..4, p), n), vec(unit(), p), vec(unit(), n), unit_mat(4, p), any::<u64>(), unit_pos()))
+        .prop_map(|(z, codes, w, noise, q, seed, param)| {
+            let (n, p) = (z.r, z.c);
+            let x = Mat::from_fn(n, p, |i, j| z.at(i, j) * 2.0 + 0.25 * j as f64);
+            let xc = Mat::from_fn(n, p, |i, j| codes[i][j] as f64);
+            let lin: Vec<f64> = (0..n).map(|i| (0..p).map(|j| w[j] * z.at(i, j)).sum::<f64>()).collect();
+            let y_reg: Vec<f64> = (0..n).map(|i| lin[i] * 2.0 + 0.5 * noise[i] + 1.0).collect();
+            let mut order: Vec<usize> = (0..n).collect();
+            order.sort_by(|a, b| lin[*a].partial_cmp(&lin[*b]).unwrap());
+            let mut y_cls = vec![0.0; n];
+            for (rank, i) in order.iter().enumerate() {
+                y_cls[*i] = (rank * 3 / n) as f64;
+            }
+            for i in 0..n {
+                if noise[i] > 0.7 {
+                    y_cls[i] = (i % 3) as f64;
+                }
+            }
+            EstCase { x, xc, y_reg, y_cls, q: q.scale(2.0), seed, param }
+        })
+        .boxed()
+}
+
+type Out = Vec<(&'static str, f64, Result<Vec<f64>, String>)>;
+
+fn run<R>(f: impl FnOnce() -> Result<R, smartcore::error::Failed>, g: impl FnOnce(R) -> Result<Vec<f64>, smartcore::error::Failed>) -> Result<Vec<f64>, String> {
+    match catch(|| f().and_then(g)) {
+        Ok(Ok(v)) => Ok(v),
+        Ok(Err(e)) => Err(format!("Err: {}", e)),
+        Err(p) => Err(format!("panic: {}", p)),
+    }
+}
+
+/// (name, relative tolerance, output) for every estimator on backend B
+fn outputs<B: Build<f64>>(c: &EstCase) -> Out {
+    let x = B::build(&c.x);
+    let xc = B::build(&c.xc);
+    let q = B::build(&c.q);
+    let qc = B::build(&c.xc.slice(0, 4.min(c.xc.r), 0, c.xc.c));
+    let yr = B::build_vec(&c.y_reg);
+    let yc = B::build_vec(&c.y_cls);
+    let v = |r: <B::M as BaseMatrix<f64>>::RowVector| vec_to_f64(&r);
+    let alpha = 0.05 + c.param;
+    let mut out: Out = vec![];
+    out.push(("linear_regression", 1e-8, run(|| LinearRegression::fit(&x, &yr, Default::default()), |m| Ok([to_mat(m.coefficients()).d, vec![m.intercept()], v(m.predict(&q)?)].concat()))));
+    out.push(("ridge", 1e-8, run(|| RidgeRegression::fit(&x, &yr, RidgeRegressionParameters::default().with_alpha(alpha)), |m| Ok([to_mat(m.coefficients()).d, vec![m.intercept()], v(m.predict(&q)?)].concat()))));
+    out.push(("lasso", 1e-5, run(|| Lasso::fit(&x, &yr, LassoParameters::default().with_alpha(alpha * 0.1).with_tol(1e-8)), |m| Ok([to_mat(m.coefficients()).d, vec![m.intercept()], v(m.predict(&q)?)].concat()))));
+    out.push(("elastic_net", 1e-5, run(|| ElasticNet::fit(&x, &yr, ElasticNetParameters::default().with_alpha(alpha * 0.1).with_tol(1e-8)), |m| Ok([to_mat(m.coefficients()).d, vec![m.intercept()], v(m.predict(&q)?)].concat()))));
+    out.push(("logistic_regression", 1e-4, run(|| LogisticRegression::fit(&x, &yc, LogisticRegressionParameters::default().with_alpha(1.0)), |m| Ok([to_mat(m.coefficients()).d, to_mat(m.intercept()).d].concat()))));
+    out.push(("gaussian_nb", 1e-9, run(|| GaussianNB::fit(&x, &yc, GaussianNBParameters::default()), |m| Ok([m.theta().concat(), m.var().concat(), v(m.predict(&q)?)].concat()))));
+    out.push(("multinomial_nb", 1e-9, run(|| MultinomialNB::fit(&xc, &yc, MultinomialNBParameters::default().with_alpha(alpha)), |m| Ok([m.feature_log_prob().concat(), v(m.predict(&qc)?)].concat()))));
+    out.push(("bernoulli_nb", 1e-9, run(|| BernoulliNB::fit(&x, &yc, BernoulliNBParameters::default().with_alpha(alpha).with_binarize(0.5)), |m| Ok([m.feature_log_prob().concat(), v(m.predict(&q)?)].concat()))));
+    out.push(("categorical_nb", 1e-9, run(|| CategoricalNB::fit(&xc, &yc, CategoricalNBParameters::default().with_alpha(alpha)), |m| v_ok(v(m.predict(&qc)?)))));
+    for (name, alg) in [("knn_classifier/cover_tree", KNNAlgorithmName::CoverTree), ("knn_classifier/linear", KNNAlgorithmName::LinearSearch)] {
+        out.push((name, 0.0, run(|| KNNClassifier::fit(&x, &yc, KNNClassifierParameters::default().with_algorithm(alg.clone())), |m| v_ok(v(m.predict(&q)?)))));
+    }
+    for (name, alg) in [("knn_regressor/cover_tree", KNNAlgorithmName::CoverTree), ("knn_regressor/linear", KNNAlgorithmName::LinearSearch)] {
+        out.push((name, 1e-12, run(|| KNNRegressor::fit(&x, &yr, KNNRegressorParameters::default().with_algorithm(alg.clone())), |m| v_ok(v(m.predict(&q)?)))));
+    }
+    out.push(("tree_classifier", 0.0, run(|| DecisionTreeClassifier::fit(&x, &yc, DecisionTreeClassifierParameters::default()), |m| v_ok([v(m.predict(&q)?), v(m.predict(&x)?)].concat()))));
+    out.push(("tree_regressor", 1e-12, run(|| DecisionTreeRegressor::fit(&x, &yr, DecisionTreeRegressorParameters::default()), |m| v_ok([v(m.predict(&q)?), v(m.predict(&x)?)].concat()))));
+    out.push(("forest_classifier", 0.0, run(|| RandomForestClassifier::fit(&x, &yc, RandomForestClassifierParameters::default().with_n_trees(6).with_seed(c.seed)), |m| v_ok(v(m.predict(&q)?)))));
+    out.push(("forest_regressor", 1e-12, run(|| RandomForestRegressor::fit(&x, &yr, RandomForestRegressorParameters::default().with_n_trees(6).with_seed(c.seed)), |m| v_ok(v(m.predict(&q)?)))));
+    out.push(("svr", 0.05, run(|| SVR::fit(&x, &yr, SVRParameters::default().with_c(1.0 + c.param).with_eps(0.1).with_kernel(Kernels::rbf(0.5))), |m| v_ok(v(m.predict(&q)?)))));
+    out.push(("pca", 1e-8, run(|| PCA::fit(&x, PCAParameters::default().with_n_components(2)), |m| Ok(to_mat(&m.transform(&q)?).d.iter().map(|t| t.abs()).collect()))));
+    out.push(("one_hot", 0.0, run(|| OneHotEncoder::fit(&xc, OneHotEncoderParams::from_cat_idx(&[0, c.xc.c - 1])), |m| Ok(to_mat(&m.transform(&xc)?).d))));
+    // metrics on backend vectors
+    let yb: Vec<f64> = c.y_cls.iter().map(|t| if *t > 0.5 { 1.0 } else { 0.0 }).collect();
+    let pb: Vec<f64> = c.y_reg.iter().map(|t| if *t > 1.0 { 1.0 } else { 0.0 }).collect();
+    let (ybv, pbv) = (B::build_vec(&yb), B::build_vec(&pb));
+    let scores = B::build_vec(&c.y_reg);
+    let metr = catch(|| {
+        vec![
+            metrics::accuracy(&ybv, &pbv),
+            metrics::precision(&ybv, &pbv),
+            metrics::recall(&ybv, &pbv),
+            metrics::f1(&ybv, &pbv, 1.0),
+            metrics::roc_auc_score(&ybv, &scores),
+            metrics::mean_squared_error(&yr, &scores),
+            metrics::mean_absolute_error(&yr, &B::build_vec(&c.y_cls)),
+            metrics::r2(&yr, &B::build_vec(&c.y_cls)),
+            metrics::homogeneity_score(&yc, &ybv),
+            metrics::completeness_score(&yc, &ybv),
+            metrics::v_measure_score(&yc, &ybv),
+        ]
+    });
+    out.push(("metrics", 1e-10, metr.map_err(|p| format!("panic: {}", p))));
+    out
+}
+
+fn v_ok(v: Vec<f64>) -> Result<Vec<f64>, smartcore::error::Failed> {
+    Ok(v)
+}
+
+fn check_est(c: &EstCase, ctx: &mut Ctx) -> Result<(), Fail> {
+    ctx.nontrivial(true);
+    let dense = outputs::<DenseB>(c);
+    for (bname, other) in [("ndarray", outputs::<NdB>(c)), ("nalgebra", outputs::<NaB>(c))] {
+        for ((name, tol, d), (_, _, o)) in dense.iter().zip(other.iter()) {
+            let tag = format!("{}/{}", bname, name);
+            match (d, o) {
+                (Ok(dv), Ok(ov)) => {
+                    ensure!(dv.len() == ov.len(), format!("{}/differs-from-dense", tag), "output length {} vs dense {}", ov.len(), dv.len());
+                    let sc = dv.iter().fold(0.0f64, |m, x| m.max(x.abs())).max(1.0);
+                    for i in 0..dv.len() {
+                        let both_nan = dv[i].is_nan() && ov[i].is_nan();
+                        ensure!(both_nan || (dv[i] - ov[i]).abs() <= tol * sc, format!("{}/differs-from-dense", tag), "{} output {}: {:e} on {}, {:e} on the dense matrix", name, i, ov[i], bname, dv[i]);
+                    }
+                }
+                (Err(de), Err(oe)) => {
+                    // same outcome class on both backends (degenerate data, e.g. a constant column): only the kind must agree
+                    ensure!(de.starts_with("Err") == oe.starts_with("Err"), format!("{}/outcome-differs-from-dense", tag), "{}: dense {}, {} {}", name, de, bname, oe);
+                    ctx.count("both_backends_reject", 1);
+                }
+                (Ok(_), Err(e)) => return fail(format!("{}/fails-where-dense-works", tag), format!("{} on {}: {}", name, bname, e)),
+                (Err(e), Ok(_)) => return fail(format!("{}/works-where-dense-fails", tag), format!("{} failed on the dense matrix only: {}", name, e)),
+            }
+        }
+    }
+    Ok(())
+}
 
 pub fn subs() -> Vec<Box<dyn DynSub>> {
-    vec![]
+    vec![sub("estimators", (300, 10000), strat_est, check_est)]
 }
